@@ -832,13 +832,13 @@ theorem tx1_ok {cfg : Cfg} {w w1 : World} {o : Op} {chs : List Change} (hms : cf
 
 /-! ### one operation -/
 
-theorem stepOp_cases (cfg : Cfg) (w : World) (o : Op) (order : List Method) (f : Fault) :
-    (stepOp cfg w o order f).1 = w ∨
+theorem stepOpCore_cases (cfg : Cfg) (w : World) (o : Op) (order : List Method) (f : Fault) :
+    (stepOpCore cfg w o order f).1 = w ∨
     ∃ w1 chs pub, tx1 cfg w o = .ok (w1, chs) ∧
-      ((stepOp cfg w o order f).1 = { w1 with pub := pub } ∨
-       (stepOp cfg w o order f).1 = tx2 cfg { w1 with pub := pub } chs true ∨
-       (stepOp cfg w o order f).1 = tx2 cfg { w1 with pub := pub } chs false) := by
-  unfold stepOp
+      ((stepOpCore cfg w o order f).1 = { w1 with pub := pub } ∨
+       (stepOpCore cfg w o order f).1 = tx2 cfg { w1 with pub := pub } chs true ∨
+       (stepOpCore cfg w o order f).1 = tx2 cfg { w1 with pub := pub } chs false) := by
+  unfold stepOpCore
   split
   · exact Or.inl rfl
   · exact Or.inl rfl
@@ -871,10 +871,10 @@ theorem tx2_false_inv {cfg : Cfg} {w1 : World} {chs : List Change} (h : Inv w1.d
   | nil => exact h
   | cons ch _ => exact inv_clear ch.tx h
 
-theorem stepOp_inv {cfg : Cfg} {w : World} (o : Op) (order : List Method) (f : Fault) (hfix : Fixed cfg)
+theorem stepOpCore_inv {cfg : Cfg} {w : World} (o : Op) (order : List Method) (f : Fault) (hfix : Fixed cfg)
     (hms : cfg.methods.Nodup) (h : Inv w.dids w.next) (hc : Clean w.dids o.subject) :
-    Inv (stepOp cfg w o order f).1.dids (stepOp cfg w o order f).1.next := by
-  rcases stepOp_cases cfg w o order f with he | ⟨w1, chs, pub, ht, he | he | he⟩ <;> rw [he]
+    Inv (stepOpCore cfg w o order f).1.dids (stepOpCore cfg w o order f).1.next := by
+  rcases stepOpCore_cases cfg w o order f with he | ⟨w1, chs, pub, ht, he | he | he⟩ <;> rw [he]
   · exact h
   · exact (tx1_ok hms h hc ht).1
   · have := tx1_ok hms h hc ht
@@ -1369,6 +1369,31 @@ theorem inv_restamp {dids : List DidRow} {n : Nat} (f : DidRow → Ver → Nat) 
       rw [h.createdIff r hr u us p hvs hp]
       simp
 
+/-! ### faults inside the first transaction -/
+
+theorem stepOp_unchanged_or_core (cfg : Cfg) (w : World) (o : Op) (order : List Method) (f : Fault) :
+    (stepOp cfg w o order f).1 = w ∨ stepOp cfg w o order f = stepOpCore cfg w o order f := by
+  unfold stepOp
+  split
+  · split
+    · exact Or.inl rfl
+    · exact Or.inr rfl
+  · exact Or.inr rfl
+
+theorem stepOp_eq_core {cfg : Cfg} {w : World} {o : Op} {order : List Method} {f : Fault} (hf : ∀ n, f.inTx1 n = none) :
+    stepOp cfg w o order f = stepOpCore cfg w o order f := by
+  unfold stepOp
+  split
+  · rw [hf]
+  · rfl
+
+theorem stepOp_inv {cfg : Cfg} {w : World} (o : Op) (order : List Method) (f : Fault) (hfix : Fixed cfg)
+    (hms : cfg.methods.Nodup) (h : Inv w.dids w.next) (hc : Clean w.dids o.subject) :
+    Inv (stepOp cfg w o order f).1.dids (stepOp cfg w o order f).1.next := by
+  rcases stepOp_unchanged_or_core cfg w o order f with he | he <;> rw [he]
+  · exact h
+  · exact stepOpCore_inv o order f hfix hms h hc
+
 /-! ### reachable worlds -/
 
 /-- Worlds reachable by operations (any fault, any commit order) that start on a subject without change records,
@@ -1463,10 +1488,10 @@ theorem keeps_tx1 {cfg : Cfg} {w w1 : World} {o : Op} {chs : List Change} (ht : 
       · exact hv
       · exact List.mem_cons_of_mem _ hv
 
-theorem stepOp_keeps {cfg : Cfg} {w : World} (o : Op) (order : List Method) (f : Fault) (hfix : Fixed cfg)
+theorem stepOpCore_keeps {cfg : Cfg} {w : World} (o : Op) (order : List Method) (f : Fault) (hfix : Fixed cfg)
     (hms : cfg.methods.Nodup) (h : Inv w.dids w.next) (hc : Clean w.dids o.subject) :
-    Keeps w.dids (stepOp cfg w o order f).1.dids := by
-  rcases stepOp_cases cfg w o order f with he | ⟨w1, chs, pub, ht, he | he | he⟩ <;> rw [he]
+    Keeps w.dids (stepOpCore cfg w o order f).1.dids := by
+  rcases stepOpCore_cases cfg w o order f with he | ⟨w1, chs, pub, ht, he | he | he⟩ <;> rw [he]
   · exact Keeps.refl _
   · exact (keeps_tx1 ht : Keeps w.dids w1.dids)
   · have := tx1_ok hms h hc ht
@@ -1481,6 +1506,13 @@ theorem stepOp_keeps {cfg : Cfg} {w : World} (o : Op) (order : List Method) (f :
     cases chs with
     | nil => exact Keeps.refl _
     | cons ch _ => exact keeps_clear ch.tx _
+
+theorem stepOp_keeps {cfg : Cfg} {w : World} (o : Op) (order : List Method) (f : Fault) (hfix : Fixed cfg)
+    (hms : cfg.methods.Nodup) (h : Inv w.dids w.next) (hc : Clean w.dids o.subject) :
+    Keeps w.dids (stepOp cfg w o order f).1.dids := by
+  rcases stepOp_unchanged_or_core cfg w o order f with he | he <;> rw [he]
+  · exact Keeps.refl _
+  · exact stepOpCore_keeps o order f hfix hms h hc
 
 theorem logCount_zero (w : World) (h : ∀ r ∈ w.dids, ∀ v ∈ r.vers, v.pending = none) : logCount w = 0 := by
   unfold logCount
@@ -1717,12 +1749,12 @@ theorem commitLoop_stop0_pub (chs : List Change) : ∀ (order : List Method) (pu
     · simp
 
 /-- the world an operation leaves behind when the process stops (before a Commit call or before the clean-up) -/
-theorem stepOp_stopped {cfg : Cfg} {w w1 : World} {o : Op} {chs : List Change} (order : List Method) (k : Nat)
+theorem stepOpCore_stopped {cfg : Cfg} {w w1 : World} {o : Op} {chs : List Change} (order : List Method) (k : Nat)
     (ht : tx1 cfg w o = .ok (w1, chs))
     (hph : (commitLoop (.stop k) chs order 0 w1.pub).2 = .stopped ∨
            ∃ i, (commitLoop (.stop k) chs order 0 w1.pub).2 = .completed i ∧ i ≤ k) :
-    (stepOp cfg w o order (.stop k)).1 = { w1 with pub := (commitLoop (.stop k) chs order 0 w1.pub).1 } := by
-  unfold stepOp
+    (stepOpCore cfg w o order (.stop k)).1 = { w1 with pub := (commitLoop (.stop k) chs order 0 w1.pub).1 } := by
+  unfold stepOpCore
   rw [ht]
   simp only
   rcases hcl : commitLoop (.stop k) chs order 0 w1.pub with ⟨pub, ph⟩
@@ -1982,10 +2014,10 @@ theorem tx2_sub (cfg : Cfg) (w : World) (chs : List Change) (b : Bool) :
     | cons ch _ => exact ⟨contentSub_deleteLogTx ch.tx w, rfl, rfl⟩
 
 /-- one operation: every key in a stored or published document afterwards was in one before, or is fresh -/
-theorem used_stepOp (cfg : Cfg) (w : World) (o : Op) (order : List Method) (f : Fault) (k : Nat)
-    (h : UsedKey (stepOp cfg w o order f).1 k) :
-    (UsedKey w k ∨ w.next ≤ k) ∧ w.next ≤ (stepOp cfg w o order f).1.next := by
-  unfold stepOp at h ⊢
+theorem used_stepOpCore (cfg : Cfg) (w : World) (o : Op) (order : List Method) (f : Fault) (k : Nat)
+    (h : UsedKey (stepOpCore cfg w o order f).1 k) :
+    (UsedKey w k ∨ w.next ≤ k) ∧ w.next ≤ (stepOpCore cfg w o order f).1.next := by
+  unfold stepOpCore at h ⊢
   split
   · rename_i e he; rw [he] at h; exact ⟨Or.inl h, Nat.le_refl _⟩
   · rename_i e he; rw [he] at h; exact ⟨Or.inl h, Nat.le_refl _⟩
@@ -2025,6 +2057,23 @@ theorem used_stepOp (cfg : Cfg) (w : World) (o : Op) (order : List Method) (f : 
         · rename_i hik; simp only [hik, if_false]; exact ⟨core _ hs.1 hs.2.1 h, by rw [hs.2.2]; exact hk.2.2.2⟩
       · exact ⟨core _ hs.1 hs.2.1 h, by rw [hs.2.2]; exact hk.2.2.2⟩
 
+theorem used_stepOp (cfg : Cfg) (w : World) (o : Op) (order : List Method) (f : Fault) (k : Nat)
+    (h : UsedKey (stepOp cfg w o order f).1 k) :
+    (UsedKey w k ∨ w.next ≤ k) ∧ w.next ≤ (stepOp cfg w o order f).1.next := by
+  rcases stepOp_unchanged_or_core cfg w o order f with he | he
+  · rw [he] at h ⊢; exact ⟨Or.inl h, Nat.le_refl _⟩
+  · rw [he] at h ⊢; exact used_stepOpCore cfg w o order f k h
+
+theorem stepOp_next_le (cfg : Cfg) (w : World) (o : Op) (order : List Method) (f : Fault) :
+    w.next ≤ (stepOp cfg w o order f).1.next := by
+  rcases stepOp_unchanged_or_core cfg w o order f with he | he <;> rw [he]
+  · exact Nat.le_refl _
+  · rcases stepOpCore_cases cfg w o order f with he | ⟨w1, chs, pub, ht, he | he | he⟩ <;> rw [he]
+    · exact Nat.le_refl _
+    · exact (tx1_keys ht).2.2.2
+    · rw [(tx2_sub cfg _ chs true).2.2]; exact (tx1_keys ht).2.2.2
+    · rw [(tx2_sub cfg _ chs false).2.2]; exact (tx1_keys ht).2.2.2
+
 /-- any continuation: operations (any fault, any order), ticks, sweeps, restamps -/
 inductive Steps (cfg : Cfg) : World → World → Prop
   | refl (w : World) : Steps cfg w w
@@ -2047,19 +2096,11 @@ theorem steps_keys {cfg : Cfg} {w w' : World} (h : Steps cfg w w') :
   induction h with
   | refl => exact ⟨Nat.le_refl _, fun _ _ h => h⟩
   | op o order f _ ih =>
-    refine ⟨?_, ?_⟩
-    · have : ∀ w'' : World, w''.next ≤ (stepOp cfg w'' o order f).1.next := by
-        intro w''
-        rcases stepOp_cases cfg w'' o order f with he | ⟨w1, chs, pub, ht, he | he | he⟩ <;> rw [he]
-        · exact Nat.le_refl _
-        · exact (tx1_keys ht).2.2.2
-        · rw [(tx2_sub cfg _ chs true).2.2]; exact (tx1_keys ht).2.2.2
-        · rw [(tx2_sub cfg _ chs false).2.2]; exact (tx1_keys ht).2.2.2
-      exact Nat.le_trans ih.1 (this _)
-    · intro k hk hu
-      rcases (used_stepOp cfg _ o order f k hu).1 with h1 | h1
-      · exact ih.2 k hk h1
-      · omega
+    refine ⟨Nat.le_trans ih.1 (stepOp_next_le cfg _ o order f), ?_⟩
+    intro k hk hu
+    rcases (used_stepOp cfg _ o order f k hu).1 with h1 | h1
+    · exact ih.2 k hk h1
+    · omega
   | tick d _ ih => exact ih
   | @sweep wm ord _ ih =>
     have hs := sweep_sub cfg ord wm
